@@ -48,6 +48,20 @@ def hop(e, reraise):
     return e2
 
 
+# what a process sent EARLIER must not matter: after an unpicklable instance of a class was (unsuccessfully) sent, ordinary instances of that class
+# still come out with their own class and args
+import threading
+for cls in (KeyError, ValueError, Custom):
+    bad = raise_it(cls(threading.Lock()) if cls is not Custom else Custom(threading.Lock(), 3))
+    try:
+        pickle.dumps(RemoteException(bad))
+    except Exception:       # noqa: BLE001
+        pass                # expected: the payload cannot be pickled
+    good = raise_it(cls('name') if cls is not Custom else Custom('name', 9))
+    out = pickle.loads(pickle.dumps(RemoteException(good)))
+    if type(out) is not cls or out.args != good.args:
+        fails.append(f'history dependence: after an unpicklable {cls.__name__} was sent, {good!r} came out as {out!r}')
+
 for mk in (lambda: raise_it(ValueError(3)), lambda: raise_it(Custom('x', 7)), lambda: raise_it(Reduced(5)), chained,
            lambda: raise_it(SystemExit(3)), lambda: raise_it(Control('c')), lambda: raise_it(KeyboardInterrupt()), lambda: raise_it(asyncio.CancelledError('x'))):
     for pattern in ([False] * 4, [True] * 4, [True, False, True, False], [False, True, True, False]):
